@@ -43,6 +43,15 @@ fn gen_pattern(rng: &mut Rng, name: &str) -> String {
     }
 }
 
+/// an `or` of `matches` operands: the compiler groups them into a regexp set (Compiler.regex_sets,
+/// ids handed out by the map's length); a failing rule leaves its sets behind
+fn gen_regex_group(rng: &mut Rng) -> String {
+    let res = ["/alp/", "/zzz/", "/^bra/", "/vo$/", "/a.p/", "/[0-9]+/", "/ALPHA/i", "/q+/"];
+    let n = 2 + rng.below(3) as usize;
+    let ops: Vec<String> = (0..n).map(|_| format!("gs{} matches {}", rng.below(2), res[rng.below(res.len() as u64) as usize])).collect();
+    format!("({})", ops.join(" or "))
+}
+
 fn gen_use(rng: &mut Rng, name: &str) -> String {
     match rng.below(6) {
         0 => format!("${}", name),
@@ -76,6 +85,7 @@ fn gen_good(rng: &mut Rng, ns: usize, name: &str, lint: bool, shared: &mut Vec<S
         uses.push(gen_use(rng, &pname));
     }
     let extra = match rng.below(4) { 0 => " and filesize < 1000", 1 => " and filesize > 2", _ => "" };
+    let extra = if rng.chance(1, 3) { format!("{} and {}", extra, gen_regex_group(rng)) } else { extra.to_string() };
     let (h, meta) = header(lint, name);
     let joiner = if rng.chance(1, 2) { " or " } else { " and " };
     Src { ns, text: format!("{} {{ {}strings: {} condition: ({}){} }}", h, meta, pats.join(" "), uses.join(joiner), extra) }
@@ -94,6 +104,7 @@ fn gen_bad(rng: &mut Rng, ns: usize, id: usize, lint: bool, slow_err: bool, igno
         uses.push(gen_use(rng, &name));
     }
     let pre = if pats.is_empty() { String::new() } else { pats.join(" ") + " " };
+    if rng.chance(1, 3) { uses.push(gen_regex_group(rng)); }
     let cond_pre = if uses.is_empty() { String::new() } else { uses.join(" and ") + " and " };
     let strings = |extra: &str| -> String {
         if pre.is_empty() && extra.is_empty() { String::new() } else { format!("strings: {}{} ", pre, extra) }
@@ -152,6 +163,8 @@ struct Compiled { rules: Option<yara_x::Rules>, add_results: Vec<bool>, n_errors
 fn compile(srcs: &[Src], case: &Case, bad_idx: Option<usize>) -> Compiled {
     let mut c = yara_x::Compiler::new();
     c.error_on_slow_pattern(case.slow_err);
+    c.define_global("gs0", "alpha").unwrap();
+    c.define_global("gs1", "bravo").unwrap();
     if case.ignore_mod { c.ignore_module("ghost_module"); }
     if case.lint {
         c.add_linter(yara_x::linters::rule_name("^OK_").unwrap().error(true));
